@@ -29,6 +29,7 @@
 #include "cppClassTemplateParameter.h"
 #include "cppFunctionType.h"
 #include "cppConstType.h"
+#include "cppArrayType.h"
 #include "cppUsing.h"
 #include "cppBisonDefs.h"
 #include "cppParameterList.h"
@@ -112,6 +113,28 @@ void CPPScope::
 add_declaration(CPPDeclaration *decl, CPPScope *global_scope,
                 CPPPreprocessor *preprocessor, const cppyyltype &pos) {
   decl->_vis = _current_vis;
+
+  // A class cannot have a non-static member of its own (still incomplete)
+  // type; accepting one makes every recursive query about the class endless.
+  CPPInstance *inst = decl->as_instance();
+  if (inst != nullptr && _struct_type != nullptr && inst->_type != nullptr &&
+      (inst->_storage_class & CPPInstance::SC_static) == 0) {
+    CPPType *member_type = inst->_type;
+    while (member_type != nullptr) {
+      if (member_type->as_array_type() != nullptr) {
+        member_type = member_type->as_array_type()->_element_type;
+      } else if (member_type->as_const_type() != nullptr) {
+        member_type = member_type->as_const_type()->_wrapped_around;
+      } else {
+        break;
+      }
+    }
+    if (member_type == _struct_type) {
+      preprocessor->error("field has incomplete type " +
+                          _struct_type->get_local_name(), pos);
+      return;
+    }
+  }
 
   // Get the recent comments from the preprocessor.  These are the comments
   // that appeared preceding this particular declaration; they might be
